@@ -37,7 +37,8 @@ TNext ==
         \* ---- C12: the spec and the live tables agree the type is unhandled
         (IF k = "unhandled_answered" /\ ~e.live_handled /\ e.authed
            THEN (IF reply # NoReply /\ reply[1] = UNIMPL THEN {} ELSE {"P_no_unimplemented_reply"})
-                \cup (IF reply # NoReply /\ reply[1] = UNIMPL /\ reply[2] # e.seq THEN {"P_unimplemented_wrong_seqno"} ELSE {})
+                \cup (IF reply # NoReply /\ reply[1] = UNIMPL /\ (reply[2] # e.seq \/ reply[3] # e.seq_hi)   \* 16-bit limbs
+                        THEN {"P_unimplemented_wrong_seqno"} ELSE {})
                 \cup (IF e.active /\ e.continues THEN {} ELSE {"P_session_ended_by_unhandled_type"})
            ELSE {})
         \cup (IF e.t = UNIMPL /\ reply # NoReply THEN {"P_unimplemented_was_answered"} ELSE {})
